@@ -61,10 +61,7 @@ package bs
 //@ ensures method.FunctionBS.IfSize >= 8 ==> (*badSmellList)[len(old(*badSmellList))].Size == method.FunctionBS.IfSize && (*badSmellList)[len(old(*badSmellList))].Description == "ifSize"
 //@ ensures method.FunctionBS.SwitchSize >= 8 ==> (*badSmellList)[len(*badSmellList) - 1].Size == method.FunctionBS.SwitchSize && (*badSmellList)[len(*badSmellList) - 1].Description == "switchSize"
 
-//@ spec CntCplx(infos []bs_domain.IfParInfo, n int) int
-//@ axiom CntCplx_zero: forall infos []bs_domain.IfParInfo :: {CntCplx(infos, 0)} CntCplx(infos, 0) == 0
-//@ axiom CntCplx_step: forall infos []bs_domain.IfParInfo, n int :: {CntCplx(infos, n + 1)} n >= 0 ==>
-//@    CntCplx(infos, n + 1) == CntCplx(infos, n) + (infos[n].EndLine - infos[n].StartLine >= 3 ? 1 : 0)
+//@ spec rec CntCplx(infos []bs_domain.IfParInfo, n int) int := n <= 0 ? 0 : CntCplx(infos, n - 1) + (infos[n - 1].EndLine - infos[n - 1].StartLine >= 3 ? 1 : 0)
 
 //@ func checkComplexIf
 //@ requires badSmellList != nil
@@ -102,18 +99,12 @@ package bs
 
 //@ spec MethCnt(m bs_domain.BSFunction) int := (m.Position.StopLine - m.Position.StartLine > 30 ? 1 : 0) + (len(m.Parameters) > 5 ? 1 : 0) +
 //@     RSw(m) + CntCplx(m.FunctionBS.IfInfo, len(m.FunctionBS.IfInfo))
-//@ spec MethSum(fs []bs_domain.BSFunction, n int) int
-//@ axiom MethSum_zero: forall fs []bs_domain.BSFunction :: {MethSum(fs, 0)} MethSum(fs, 0) == 0
-//@ axiom MethSum_step: forall fs []bs_domain.BSFunction, n int :: {MethSum(fs, n + 1)} n >= 0 ==> MethSum(fs, n + 1) == MethSum(fs, n) + MethCnt(fs[n])
-//@ spec AllGS(fs []bs_domain.BSFunction, n int) bool
-//@ axiom AllGS_zero: forall fs []bs_domain.BSFunction :: {AllGS(fs, 0)} AllGS(fs, 0)
-//@ axiom AllGS_step: forall fs []bs_domain.BSFunction, n int :: {AllGS(fs, n + 1)} n >= 0 ==> (AllGS(fs, n + 1) <==> (AllGS(fs, n) && IsGS(fs[n].CodeFunction)))
+//@ spec rec MethSum(fs []bs_domain.BSFunction, n int) int := n <= 0 ? 0 : MethSum(fs, n - 1) + MethCnt(fs[n - 1])
+//@ spec rec AllGS(fs []bs_domain.BSFunction, n int) bool := n <= 0 ? true : (AllGS(fs, n - 1) && IsGS(fs[n - 1].CodeFunction))
 //@ spec NodeCnt(n bs_domain.BSDataStruct) int := ((n.Type == "Class" && len(n.Functions) < 1) ? 1 : 0) + MethSum(n.Functions, len(n.Functions)) +
 //@     ((AllGS(n.Functions, len(n.Functions)) && n.Type == "Class" && len(n.Functions) > 0) ? 1 : 0) + RB(n) +
 //@     ((n.Type == "Class" && CntNGS(n.Functions, len(n.Functions)) >= 20) ? 1 : 0)
-//@ spec Tot(ns []bs_domain.BSDataStruct, n int) int
-//@ axiom Tot_zero: forall ns []bs_domain.BSDataStruct :: {Tot(ns, 0)} Tot(ns, 0) == 0
-//@ axiom Tot_step: forall ns []bs_domain.BSDataStruct, n int :: {Tot(ns, n + 1)} n >= 0 ==> Tot(ns, n + 1) == Tot(ns, n) + NodeCnt(ns[n])
+//@ spec rec Tot(ns []bs_domain.BSDataStruct, n int) int := n <= 0 ? 0 : Tot(ns, n - 1) + NodeCnt(ns[n - 1])
 
 //@ func AnalysisBadSmell
 //@ ensures len(result) >= Tot(nodes, len(nodes))
@@ -122,9 +113,7 @@ package bs
 //@ loop 2 invariant len(badSmellList) == Tot(nodes, #i1) + ((node.Type == "Class" && len(node.Functions) < 1) ? 1 : 0) + MethSum(node.Functions, #i)
 //@ loop 2 invariant onlyHaveGetterAndSetter <==> AllGS(node.Functions, #i)
 
-//@ spec MemStr(xs []string, n int, s string) bool
-//@ axiom MemStr_zero: forall xs []string, s string :: {MemStr(xs, 0, s)} !MemStr(xs, 0, s)
-//@ axiom MemStr_step: forall xs []string, n int, s string :: {MemStr(xs, n + 1, s)} n >= 0 ==> (MemStr(xs, n + 1, s) <==> (MemStr(xs, n, s) || xs[n] == s))
+//@ spec rec MemStr(xs []string, n int, s string) bool := n <= 0 ? false : (MemStr(xs, n - 1, s) || xs[n - 1] == s)
 
 //@ func BadSmellApp.IdentifyBadSmell
 //@ requires nodeInfos != nil
